@@ -782,6 +782,12 @@ def collapse_macros(results, groups):
     return out
 
 
+def segment_keys(desc):
+    """The segment_NN keys of a blueprint description in segment order (numeric: segment_100 comes after segment_99)."""
+    ks = [x for x in desc if isinstance(x, str) and x.startswith("segment_")]
+    return sorted(ks, key=lambda k: (int(k[8:]) if k[8:].isdigit() else 10**9, k))
+
+
 def wait_dust(results):
     """True when some blueprint description among these observations has a `waituntil` whose target coincides with the
     time elapsed before it up to binary64 dust (relative 1e-9).  Whether such a blueprint counts as overrun (ValueError),
@@ -792,7 +798,7 @@ def wait_dust(results):
 
     def bp(desc):
         el = Fraction(0)
-        for k in sorted(x for x in desc if isinstance(x, str) and x.startswith("segment_")):
+        for k in segment_keys(desc):
             sg = desc[k]
             try:
                 if sg.get("function") == "waituntil":
